@@ -6,19 +6,25 @@ from BPTK_Py import Model, bptk
 from BPTK_Py.server import BptkServer
 import BPTK_Py.server.bptkServer as srvmod
 
-DESTROYED = []
+DESTROYED = []      # serial numbers of destroyed bptk objects (NOT id(): python reuses the id of a freed object)
+_SERIAL = [0]
+
+SM = ["sm"]          # name of the scenario manager the factory registers (a harness may switch it, e.g. to "2024")
+RUNSPEC = [1.0, 10.0, 1.0]
 
 def make_bptk():
-    m = Model(starttime=1.0, stoptime=10.0, dt=1.0, name="m")
+    m = Model(starttime=RUNSPEC[0], stoptime=RUNSPEC[1], dt=RUNSPEC[2], name="m")
     s = m.stock("s"); f = m.flow("f"); c = m.constant("c")
     s.initial_value = 0.0; c.equation = 1.0; f.equation = c; s.equation = f
     b = bptk()
     b.register_model(m)
-    b.register_scenario_manager({"sm": {"model": m}})
-    b.register_scenarios(scenario_manager="sm", scenarios={"base": {"constants": {"c": 1.0}}})
+    b.register_scenario_manager({SM[0]: {"model": m}})
+    b.register_scenarios(scenario_manager=SM[0], scenarios={"base": {"constants": {"c": 1.0}}})
     orig = b.destroy
+    _SERIAL[0] += 1
+    b._verif_serial = _SERIAL[0]
     def destroy(orig=orig, b=b):
-        DESTROYED.append(id(b)); return orig()
+        DESTROYED.append(b._verif_serial); return orig()
     b.destroy = destroy
     return b
 
@@ -46,7 +52,7 @@ def start(client, headers=None, timeout=None):
     return json.loads(r.data)["instance_uuid"]
 
 def begin(client, u, headers=None):
-    return client.post("/%s/begin-session" % u, json=BEGIN, headers=headers or {})
+    return client.post("/%s/begin-session" % u, json=dict(BEGIN, scenario_managers=[SM[0]]), headers=headers or {})
 
 def digest(app):
     """server-side state that a refused request must not change"""
@@ -54,7 +60,7 @@ def digest(app):
     for k, rec in app._instance_manager._instances.items():
         ss = rec["instance"].session_state
         d[k] = None if ss is None else (ss.get("step"), ss.get("lock"), len(ss.get("results_log", {}) or {}), repr(ss.get("settings_log"))[:200])
-    sc = app._bptk.get_scenario("sm", "base")
+    sc = app._bptk.get_scenario(SM[0], "base")
     return (d, dict(sc.constants), len(DESTROYED))
 
 import re, tempfile, shutil
@@ -162,7 +168,7 @@ def run(case):
             return "instance %d: %d responses interleaved, %d alone" % (i, len(joint[i]), len(solo))
     return None
 
-case = ({'adapter': False, 'compress': False, 'batch': False}, [{'hours': 1}, {'seconds': 2}, {'seconds': 2}], [(1, ('begin', ('base', 'alt'), ('s',), ('alt', 'c', 11.0))), (0, ('begin', ('base', 'alt'), ('s', 'c'), ('base', 'c', 5.0))), (0, ('end',)), (0, ('begin', ('base', 'alt'), ('s', 'c'), None)), (1, ('end',)), (2, ('begin', ('base', 'alt'), ('s', 'c'), ('base', 'g', 7.0))), (2, ('end',)), (2, ('begin', ('base', 'alt'), ('s', 'c'), ('base', 'g', 7.0))), (2, ('steps', 3, ('base', 'c', 5.0))), (1, ('begin', ('base', 'alt'), ('s',), ('alt', 'c', 11.0))), (1, ('step', ('base', 'g', 7.0))), (1, ('results', False)), (2, ('step', ('base', 'g', 7.0))), (2, ('end',)), (0, ('steps', 2, None)), (2, ('begin', ('base', 'alt'), ('s', 'c'), None)), (None, ('advance', 3)), (0, ('results', False)), (0, ('step', ('base', 'g', 7.0))), (2, ('results', True)), (2, ('keep',)), (2, ('stream', None)), (2, ('results', False)), (0, ('stop',)), (0, ('keep',))])
+case = ({'adapter': False, 'compress': False, 'batch': False}, [{'minutes': 5}, {'seconds': 2}, {'hours': 1}], [(2, ('begin', ('alt',), ('s', 'f', 'g'), ('alt', 'c', 11.0))), (0, ('begin', ('base',), ('s', 'f', 'g'), None)), (0, ('steps', 2, None)), (0, ('step', ('base', 'c', 5.0))), (0, ('results', False)), (0, ('steps', 2, ('base', 'c', 5.0))), (0, ('keep',)), (0, ('stream', None)), (2, ('steps', 1, None)), (2, ('step', ('base', 'g', 7.0))), (2, ('step', ('alt', 'c', 11.0))), (2, ('steps', 2, ('base', 'c', 0.25))), (2, ('step', ('base', 'c', 0.25))), (1, ('begin', ('base', 'alt'), ('s', 'f', 'g'), ('alt', 'g', 4.0))), (1, ('step', ('base', 'c', 0.25))), (1, ('step', ('base', 'c', 0.25))), (1, ('steps', 2, ('alt', 'g', 4.0))), (2, ('stream', ('base', 'g', 7.0))), (1, ('step', ('base', 'c', 5.0))), (1, ('step', ('base', 'c', 5.0))), (2, ('results', False)), (1, ('step', ('base', 'c', 0.25))), (1, ('results', False))])
 bad = run(case)
 print("configuration:", case[0], "timeouts:", case[1])
 for p, s in enumerate(case[2]):
